@@ -12,6 +12,7 @@ EXPLANATION = ('Schema contract instantiated on every discovered (group class, b
                'values in member order; setter with a sequence of group length assigns element-wise, any other length raises ValueError '
                'and leaves the heap unchanged, a scalar is given to every member; proved for groups of any size by loop invariants over '
                'the heap. Structural obligations: the function decorated @x.setter is itself named x.')
+EXPLANATION += '  group[name] returns the member whose current name is unique and equal to the key (ValueError otherwise).'
 GROUP_FILES = ["cherab/tools/observers/group/base.py", "cherab/tools/observers/group/sightline.py",
                "cherab/tools/observers/group/fibreoptic.py", "cherab/tools/observers/group/pixel.py",
                "cherab/tools/observers/group/targettedpixel.py", "cherab/tools/observers/group/spectroscopic.py"]
